@@ -254,6 +254,12 @@ def getter(m, name, strict):
 def run(ctx):
     ctx.level = "proof"
     ctx.prove()
+    import translate_aliasflow as T
+    ctx.gen_step("aliasflow", T.translate, "C16_gen",
+                 "harness/translate_aliasflow.py (ast -> statement / expression skeleton of every class, method and function of vrptw.py, "
+                 "routing_problem.py, the three formulation files and applications/mirp.py, class-body assignments, imports; the flow "
+                 "analysis, the classification of writes against Store.v, the discipline check and the getter semantics are Coq "
+                 "definitions in theories/PyAlias.v)")
     rng = ctx.rng
     ctx.assumptions += [
         "copy.deepcopy, CPython object identity and numpy are library/runtime behaviour: the frame theorem's disjointness hypothesis is checked on the real objects by id()-reachability, not proved",
